@@ -82,6 +82,18 @@ Record env := {
   nt_arity : nat -> nat              (* number of fields of namedtuple class n (no defaults) *)
 }.
 
+(** ** Outcomes: a value, or an exception that propagates.  [ETypeError] is the
+    builtin [TypeError] (raised by hashing, by class calls with the wrong number
+    of arguments, and possibly by user callables); [EUser n] any other exception
+    class, raised only by user callables. *)
+Inductive exc := ETypeError | EUser (n : nat).
+Inductive res (A : Type) : Type := Ok (a : A) | Err (e : exc).
+Arguments Ok {A} a.
+Arguments Err {A} e.
+
+Definition bind {A B : Type} (r : res A) (k : A -> res B) : res B :=
+  match r with Ok a => k a | Err e => Err e end.
+
 (** ** Python builtins on these values (oracle layer): hash-ability, [==] on
     hashable values, [set(...)], [d[k] = v], [dict(pairs)], [cf(items)]. *)
 
@@ -134,10 +146,10 @@ Fixpoint dedup_acc (acc items : list val) : list val :=
   | x :: r => if py_mem x acc then dedup_acc acc r else dedup_acc (acc ++ [x]) r
   end.
 
-Definition mk_set (items : list val) : option val :=
-  if forallb hashable items then Some (VS (dedup_acc [] items)) else None.
-Definition mk_frozen (items : list val) : option val :=
-  if forallb hashable items then Some (VF (dedup_acc [] items)) else None.
+Definition mk_set (items : list val) : res val :=
+  if forallb hashable items then Ok (VS (dedup_acc [] items)) else Err ETypeError.
+Definition mk_frozen (items : list val) : res val :=
+  if forallb hashable items then Ok (VF (dedup_acc [] items)) else Err ETypeError.
 
 (** [d[k] = v]: an equal key keeps its place and its key object. *)
 Fixpoint dict_set (d : list (val * val)) (k v : val) : list (val * val) :=
@@ -149,9 +161,9 @@ Fixpoint dict_set (d : list (val * val)) (k v : val) : list (val * val) :=
 Definition dict_of_pairs (ps : list (val * val)) : list (val * val) :=
   fold_left (fun d p => dict_set d (fst p) (snd p)) ps [].
 
-(** [df(pairs)] for a dict class; [None] = TypeError (unhashable key). *)
-Definition mk_dict (df : dkind) (ps : list (val * val)) : option val :=
-  if forallb (fun p => hashable (fst p)) ps then Some (VD df (dict_of_pairs ps)) else None.
+(** [df(pairs)] for a dict class, once the pairs are there (see [pairs_conv] for
+    the hashing of the keys, which happens pair by pair). *)
+Definition mk_dict (df : dkind) (ps : list (val * val)) : val := VD df (dict_of_pairs ps).
 
 (** Sequence classes as callables. *)
 Inductive ctor := CfList | CfTuple (k : tkind) | CfSet | CfFrozen.
@@ -161,15 +173,15 @@ Definition class_of_seq (v : val) : ctor :=
   | VT k _ => CfTuple k | VS _ => CfSet | VF _ => CfFrozen | _ => CfList
   end.
 
-(** [cf(items)] with [items] a list object; [None] = TypeError.  A namedtuple
-    class called with one positional argument fails unless it has exactly one
-    field, in which case that field receives the whole list (not reachable
-    through [rebuild_collection], which calls namedtuple classes with [*items]). *)
-Definition call1 (cf : ctor) (items : list val) : option val :=
+(** [cf(items)] with [items] a list object.  A namedtuple class called with one
+    positional argument fails unless it has exactly one field, in which case that
+    field receives the whole list (not reachable through [rebuild_collection],
+    which calls namedtuple classes with [*items]). *)
+Definition call1 (cf : ctor) (items : list val) : res val :=
   match cf with
-  | CfList => Some (VL items)
-  | CfTuple (TkN n) => if nt_arity E n =? 1 then Some (VT (TkN n) [VL items]) else None
-  | CfTuple k => Some (VT k items)
+  | CfList => Ok (VL items)
+  | CfTuple (TkN n) => if nt_arity E n =? 1 then Ok (VT (TkN n) [VL items]) else Err ETypeError
+  | CfTuple k => Ok (VT k items)
   | CfSet => mk_set items
   | CfFrozen => mk_frozen items
   end.
@@ -185,14 +197,15 @@ Definition iter_members (v : val) : option (list val) :=
 (** [cf( *items )]: a namedtuple class takes its members; the builtin classes (and a plain tuple
     subclass) take at most one iterable (not reached by [rebuild_collection], which calls them
     with [cf(items)]). *)
-Definition call_star (cf : ctor) (items : list val) : option val :=
+Definition call_star (cf : ctor) (items : list val) : res val :=
   match cf with
-  | CfTuple (TkN n) => if List.length items =? nt_arity E n then Some (VT (TkN n) items) else None
+  | CfTuple (TkN n) =>
+      if List.length items =? nt_arity E n then Ok (VT (TkN n) items) else Err ETypeError
   | _ =>
       match items with
       | [] => call1 cf []
-      | [x] => match iter_members x with Some ms => call1 cf ms | None => None end
-      | _ => None
+      | [x] => match iter_members x with Some ms => call1 cf ms | None => Err ETypeError end
+      | _ => Err ETypeError
       end
   end.
 
@@ -203,74 +216,77 @@ Definition is_tuple_class (cf : ctor) : bool :=
 Definition is_namedtuple_class (cf : ctor) : bool :=
   match cf with CfTuple (TkN _) => true | _ => false end.
 
-(** [_funcs._rebuild_collection(cf, items)]:
+(** [_funcs._rebuild_collection(cf, items)] on a list [items]:
     namedtuple classes get [cf( *items )]; otherwise
     [try: cf(items) / except TypeError: if not issubclass(cf, tuple): raise / cf( *items )] *)
-Definition rebuild_collection (cf : ctor) (items : list val) : option val :=
+Definition rebuild_collection (cf : ctor) (items : list val) : res val :=
   if is_namedtuple_class cf then call_star cf items
   else
     match call1 cf items with
-    | Some r => Some r
-    | None => if is_tuple_class cf then call_star cf items else None
+    | Ok r => Ok r
+    | Err ETypeError => if is_tuple_class cf then call_star cf items else Err ETypeError
+    | Err e => Err e
+    end.
+
+(** [((fk k, fv v) for k, v in d.items())] consumed by a dict class: the pairs are
+    produced and inserted one after the other, so the key of a pair is hashed
+    (TypeError when unhashable) before the next pair is converted. *)
+Definition pairs_conv (fk fv : val -> res val) :=
+  fix go (kvs : list (val * val)) : res (list (val * val)) :=
+    match kvs with
+    | [] => Ok []
+    | kv :: r =>
+        match kv with
+        | (k, v) =>
+            bind (fk k) (fun a =>
+            bind (fv v) (fun b =>
+            if hashable a then bind (go r) (fun r' => Ok ((a, b) :: r')) else Err ETypeError))
+        end
     end.
 
 End Builtins.
 
-(** ** Comprehensions ([None] = an element raised). *)
+(** ** Comprehensions: elements are converted left to right, the first exception wins. *)
 
-Definition seq_conv {A B : Type} (f : A -> option B) :=
-  fix go (xs : list A) : option (list B) :=
+Definition seq_conv {A B : Type} (f : A -> res B) :=
+  fix go (xs : list A) : res (list B) :=
     match xs with
-    | [] => Some []
-    | x :: r => match f x, go r with
-                | Some a, Some r' => Some (a :: r')
-                | _, _ => None
-                end
-    end.
-
-Definition pairs_conv {A B : Type} (fk fv : A -> option B) :=
-  fix go (kvs : list (A * A)) : option (list (B * B)) :=
-    match kvs with
-    | [] => Some []
-    | kv :: r =>
-        match kv with
-        | (k, v) => match fk k, fv v, go r with
-                    | Some a, Some b, Some r' => Some ((a, b) :: r')
-                    | _, _, _ => None
-                    end
-        end
+    | [] => Ok []
+    | x :: r => bind (f x) (fun a => bind (go r) (fun r' => Ok (a :: r')))
     end.
 
 (** [for a in fields(cls): v = getattr(inst, a.name); if not keep: continue; ... conv ...]
     — the list of [(a.name, converted value)] in field order. *)
-Definition fields_loop {B : Type} (keep : field -> val -> bool) (conv : field -> val -> option B) :=
-  fix go (fs : list field) (vs : list val) {struct vs} : option (list (string * B)) :=
+Definition fields_loop {B : Type} (keep : field -> val -> res bool) (conv : field -> val -> res B) :=
+  fix go (fs : list field) (vs : list val) {struct vs} : res (list (string * B)) :=
     match vs, fs with
     | v :: vs', f :: fs' =>
-        if keep f v then
-          match conv f v, go fs' vs' with
-          | Some x, Some r => Some ((fst f, x) :: r)
-          | _, _ => None
-          end
-        else go fs' vs'
-    | _, _ => Some []
+        bind (keep f v) (fun b =>
+        if b then bind (conv f v) (fun x => bind (go fs' vs') (fun r => Ok ((fst f, x) :: r)))
+        else go fs' vs')
+    | _, _ => Ok []
     end.
 
 (** ** User callables.
-    A filter is any function of the field and the value.  A value_serializer
-    either returns its argument ([None]) or replaces it by a value that is
-    neither an attrs instance nor a collection ([Some r], treated as opaque). *)
-Definition filter_fn := field -> val -> bool.
-Definition ser_fn := who -> val -> option val.
+    A filter is any function of the field and the value; it may raise.  A
+    value_serializer either returns its argument ([Ok None]), replaces it by a
+    value that is neither an attrs instance nor a collection ([Ok (Some r)], treated
+    as opaque), or raises. *)
+Definition filter_fn := field -> val -> res bool.
+Definition ser_fn := who -> val -> res (option val).
 
-Definition passes (flt : option filter_fn) (f : field) (v : val) : bool :=
-  match flt with None => true | Some p => p f v end.
+Definition passes (flt : option filter_fn) (f : field) (v : val) : res bool :=
+  match flt with None => Ok true | Some p => p f v end.
 
-Definition ser_apply (ser : option ser_fn) (w : who) (v : val) : option val :=
-  match ser with None => None | Some s => s w v end.
+Definition ser_apply (ser : option ser_fn) (w : who) (v : val) : res (option val) :=
+  match ser with None => Ok None | Some s => s w v end.
 
-Definition ser_value (ser : option ser_fn) (w : who) (v : val) : val :=
-  match ser_apply ser w v with Some r => r | None => v end.
+Definition ser_value (ser : option ser_fn) (w : who) (v : val) : res val :=
+  match ser_apply ser w v with
+  | Ok (Some r) => Ok r
+  | Ok None => Ok v
+  | Err e => Err e
+  end.
 
 Section Funcs.
 Variable E : env.
@@ -281,29 +297,24 @@ Variable E : env.
     abstracted ([rec_inst v] = [asdict(v, recurse=True, ...same...)],
     [rec_any is_key v] = [_asdict_anything(v, is_key, ...same...)]). *)
 Definition asdict_field
-    (rec_inst : val -> option val) (rec_any : bool -> val -> option val)
+    (rec_inst : val -> res val) (rec_any : bool -> val -> res val)
     (recurse retain : bool) (df : dkind) (ser : option ser_fn)
-    (c : nat) (f : field) (v : val) : option val :=
+    (c : nat) (f : field) (v : val) : res val :=
   match ser_apply ser (Some (c, fst f)) v with      (* v = value_serializer(inst, a, v) *)
-  | Some r => Some r                                (* opaque: falls to [rv[a.name] = v] *)
-  | None =>
+  | Err e => Err e
+  | Ok (Some r) => Ok r                             (* opaque: falls to [rv[a.name] = v] *)
+  | Ok None =>
       if recurse then
         match v with
         | VI _ _ => rec_inst v                                   (* has(v.__class__) *)
         | VL xs | VT _ xs | VS xs | VF xs =>                     (* isinstance(v, (tuple, list, set, frozenset)) *)
             let cf := if retain then class_of_seq v else CfList in
-            match seq_conv (rec_any false) xs with
-            | Some items => rebuild_collection E cf items
-            | None => None
-            end
+            bind (seq_conv (rec_any false) xs) (rebuild_collection E cf)
         | VD _ kvs =>                                            (* isinstance(v, dict) *)
-            match pairs_conv (rec_any true) (rec_any false) kvs with
-            | Some ps => mk_dict E df ps
-            | None => None
-            end
-        | _ => Some v
+            bind (pairs_conv E (rec_any true) (rec_any false) kvs) (fun ps => Ok (mk_dict df ps))
+        | _ => Ok v
         end
-      else Some v
+      else Ok v
   end.
 
 (** [rv = dict_factory()] followed by the assignments [rv[name] = value]. *)
@@ -311,21 +322,17 @@ Definition record (df : dkind) (assigns : list (string * val)) : val :=
   VD df (dict_of_pairs (map (fun a => (VStr (fst a), snd a)) assigns)).
 
 Definition asdict_body
-    (rec_inst : val -> option val) (rec_any : bool -> val -> option val)
+    (rec_inst : val -> res val) (rec_any : bool -> val -> res val)
     (recurse retain : bool) (flt : option filter_fn) (df : dkind) (ser : option ser_fn)
-    (c : nat) (vs : list val) : option val :=
-  match
-    fields_loop (passes flt)                       (* if filter is not None and not filter(a, v): continue *)
-      (asdict_field rec_inst rec_any recurse retain df ser c)
-      (fields_of E c) vs
-  with
-  | Some assigns => Some (record df assigns)
-  | None => None
-  end.
+    (c : nat) (vs : list val) : res val :=
+  bind (fields_loop (passes flt)                   (* if filter is not None and not filter(a, v): continue *)
+          (asdict_field rec_inst rec_any recurse retain df ser c)
+          (fields_of E c) vs)
+       (fun assigns => Ok (record df assigns)).
 
 (** ** [attr._funcs._asdict_anything] *)
 Fixpoint asdict_anything (is_key retain : bool) (flt : option filter_fn) (df : dkind)
-    (ser : option ser_fn) (v : val) {struct v} : option val :=
+    (ser : option ser_fn) (v : val) {struct v} : res val :=
   match v with
   | VI c vs =>                                      (* rv = asdict(val, recurse=True, ...) *)
       asdict_body (asdict_anything false retain flt df ser)
@@ -334,32 +341,29 @@ Fixpoint asdict_anything (is_key retain : bool) (flt : option filter_fn) (df : d
   | VL xs | VT _ xs | VS xs | VF xs =>
       let cf := if retain then class_of_seq v
                 else if is_key then CfTuple TkT else CfList in
-      (* members of a key stay keys: [is_key=is_key] *)
-      match seq_conv (asdict_anything is_key retain flt df ser) xs with
-      | Some items => rebuild_collection E cf items
-      | None => None
-      end
+      (* members of a key stay keys: [is_key=is_key]; the members are converted
+         into a list first, then the collection is rebuilt *)
+      bind (seq_conv (asdict_anything is_key retain flt df ser) xs) (rebuild_collection E cf)
   | VD _ kvs =>
-      match pairs_conv (asdict_anything true retain flt df ser)
-                       (asdict_anything false retain flt df ser) kvs with
-      | Some ps => mk_dict E df ps
-      | None => None
-      end
-  | _ => Some (ser_value ser None v)                (* rv = val; value_serializer(None, None, rv) *)
+      bind (pairs_conv E (asdict_anything true retain flt df ser)
+                         (asdict_anything false retain flt df ser) kvs)
+           (fun ps => Ok (mk_dict df ps))
+  | _ => ser_value ser None v                       (* rv = val; value_serializer(None, None, rv) *)
   end.
 
 (** [asdict(inst, recurse, filter, dict_factory, retain_collection_types, value_serializer)].
     On an instance, [_asdict_anything] is by definition this function with
     [recurse=True] (lemma [asdict_anything_inst] in Proofs.v), which is how the
-    nested call [asdict(v, recurse=True, ...)] is tied. *)
+    nested call [asdict(v, recurse=True, ...)] is tied.  ([Err ETypeError] on a
+    non-instance stands for NotAnAttrsClassError; never exercised.) *)
 Definition asdict (recurse retain : bool) (flt : option filter_fn) (df : dkind)
-    (ser : option ser_fn) (inst : val) : option val :=
+    (ser : option ser_fn) (inst : val) : res val :=
   match inst with
   | VI c vs =>
       asdict_body (asdict_anything false retain flt df ser)
                   (fun k => asdict_anything k retain flt df ser)
                   recurse retain flt df ser c vs
-  | _ => None
+  | _ => Err ETypeError
   end.
 
 (** ** [attr._funcs.astuple] *)
@@ -370,50 +374,41 @@ Definition apply_tf (tf : tfk) (rv : list val) : val :=
   match tf with TfTuple => VT TkT rv | TfList => VL rv | TfSub => VT TkS rv end.
 
 (** [astuple(j, ...) if has(j.__class__) else j] *)
-Definition astuple_member (rec : val -> option val) (j : val) : option val :=
-  match j with VI _ _ => rec j | _ => Some j end.
+Definition astuple_member (rec : val -> res val) (j : val) : res val :=
+  match j with VI _ _ => rec j | _ => Ok j end.
 
 (** The loop body after the filter test; [rec flt v] = [astuple(v, recurse=True,
     filter=flt, ...same...)].  The calls in the dict branch pass neither
     [filter] nor [recurse] (so: [None] and the default [True]). *)
-Definition astuple_field (rec : option filter_fn -> val -> option val)
-    (recurse retain : bool) (flt : option filter_fn) (v : val) : option val :=
+Definition astuple_field (rec : option filter_fn -> val -> res val)
+    (recurse retain : bool) (flt : option filter_fn) (v : val) : res val :=
   if recurse then
     match v with
     | VI _ _ => rec flt v
     | VL xs | VT _ xs | VS xs | VF xs =>
         let cf := if retain then class_of_seq v else CfList in
-        match seq_conv (astuple_member (rec flt)) xs with
-        | Some items => rebuild_collection E cf items
-        | None => None
-        end
+        bind (seq_conv (astuple_member (rec flt)) xs) (rebuild_collection E cf)
     | VD k kvs =>
         let df := if retain then k else DkD in
-        match pairs_conv (astuple_member (rec None)) (astuple_member (rec None)) kvs with
-        | Some ps => mk_dict E df ps
-        | None => None
-        end
-    | _ => Some v
+        bind (pairs_conv E (astuple_member (rec None)) (astuple_member (rec None)) kvs)
+             (fun ps => Ok (mk_dict df ps))
+    | _ => Ok v
     end
-  else Some v.
+  else Ok v.
 
 Fixpoint astuple_rec (retain : bool) (tf : tfk) (recurse : bool) (flt : option filter_fn)
-    (inst : val) {struct inst} : option val :=
+    (inst : val) {struct inst} : res val :=
   match inst with
   | VI c vs =>
-      match
-        fields_loop (passes flt)
-          (fun _ v => astuple_field (astuple_rec retain tf true) recurse retain flt v)
-          (fields_of E c) vs
-      with
-      | Some items => Some (apply_tf tf (map snd items))
-      | None => None
-      end
-  | _ => None
+      bind (fields_loop (passes flt)
+              (fun _ v => astuple_field (astuple_rec retain tf true) recurse retain flt v)
+              (fields_of E c) vs)
+           (fun items => Ok (apply_tf tf (map snd items)))
+  | _ => Err ETypeError
   end.
 
 Definition astuple (recurse retain : bool) (flt : option filter_fn) (tf : tfk)
-    (inst : val) : option val :=
+    (inst : val) : res val :=
   astuple_rec retain tf recurse flt inst.
 
 (** ** [attr._next_gen.asdict / astuple] *)
@@ -427,70 +422,81 @@ Definition ng_astuple (recurse : bool) (flt : option filter_fn) (inst : val) :=
     One generic conversion indexed by the position of the value: a field value,
     a member of a collection / a dict value, or (inside) a dict key.  Namedtuples
     are rebuilt field by field; collections inside a key become tuples at every
-    depth. *)
+    depth; conversions happen left to right and the first exception is the outcome. *)
 Inductive pos := PField | PMember | PKey.
 
-Definition all_some {A : Type} : list (option A) -> option (list A) :=
+Definition all_ok {A : Type} : list (res A) -> res (list A) :=
   fix go l := match l with
-              | [] => Some []
-              | Some a :: r => option_map (cons a) (go r)
-              | None :: _ => None
+              | [] => Ok []
+              | Ok a :: r => match go r with Ok r' => Ok (a :: r') | Err e => Err e end
+              | Err e :: _ => Err e
               end.
 
-Definition rebuild_spec (retain : bool) (p : pos) (v : val) (items : list val) : option val :=
+Definition rebuild_spec (retain : bool) (p : pos) (v : val) (items : list val) : res val :=
   if retain then
     match v with
-    | VT k _ => Some (VT k items)
+    | VT k _ => Ok (VT k items)
     | VS _ => mk_set E items
     | VF _ => mk_frozen E items
-    | _ => Some (VL items)
+    | _ => Ok (VL items)
     end
-  else match p with PKey => Some (VT TkT items) | _ => Some (VL items) end.
+  else match p with PKey => Ok (VT TkT items) | _ => Ok (VL items) end.
 
 Definition inner_pos (p : pos) : pos := match p with PKey => PKey | _ => PMember end.
 
+(** a converted (key, value) pair: the key must be hashable *)
+Definition pair_spec (a b : res val) : res (val * val) :=
+  match a with
+  | Err e => Err e
+  | Ok a' => match b with
+             | Err e => Err e
+             | Ok b' => if hashable E a' then Ok (a', b') else Err ETypeError
+             end
+  end.
+
 Fixpoint conv_spec (retain : bool) (flt : option filter_fn) (df : dkind) (ser : option ser_fn)
-    (p : pos) (v : val) {struct v} : option val :=
+    (p : pos) (v : val) {struct v} : res val :=
   match v with
   | VI c vs =>
-      option_map (fun items => VD df (map (fun a => (VStr (fst a), snd a)) items))
-        (fields_loop (passes flt)
-           (fun f x => match ser_apply ser (Some (c, fst f)) x with
-                       | Some r => Some r
-                       | None => conv_spec retain flt df ser PField x
-                       end)
-           (fields_of E c) vs)
+      match fields_loop (passes flt)
+              (fun f x => match ser_apply ser (Some (c, fst f)) x with
+                          | Err e => Err e
+                          | Ok (Some r) => Ok r
+                          | Ok None => conv_spec retain flt df ser PField x
+                          end)
+              (fields_of E c) vs with
+      | Ok items => Ok (VD df (map (fun a => (VStr (fst a), snd a)) items))
+      | Err e => Err e
+      end
   | VL xs | VT _ xs | VS xs | VF xs =>
-      match all_some (map (conv_spec retain flt df ser (inner_pos p)) xs) with
-      | Some items => rebuild_spec retain p v items
-      | None => None
+      match all_ok (map (conv_spec retain flt df ser (inner_pos p)) xs) with
+      | Ok items => rebuild_spec retain p v items
+      | Err e => Err e
       end
   | VD _ kvs =>
-      match all_some (map (fun kv => match kv with
-                                     | (k, x) =>
-                                         match conv_spec retain flt df ser PKey k,
-                                               conv_spec retain flt df ser PMember x with
-                                         | Some a, Some b => Some (a, b)
-                                         | _, _ => None
-                                         end
-                                     end) kvs) with
-      | Some ps => mk_dict E df ps
-      | None => None
+      match all_ok (map (fun kv => match kv with
+                                   | (k, x) => pair_spec (conv_spec retain flt df ser PKey k)
+                                                         (conv_spec retain flt df ser PMember x)
+                                   end) kvs) with
+      | Ok ps => Ok (mk_dict df ps)
+      | Err e => Err e
       end
-  | _ => Some (match p with PField => v | _ => ser_value ser None v end)
+  | _ => match p with PField => Ok v | _ => ser_value ser None v end
   end.
 
 (** What [asdict] should return. *)
 Definition asdict_spec (recurse retain : bool) (flt : option filter_fn) (df : dkind)
-    (ser : option ser_fn) (inst : val) : option val :=
+    (ser : option ser_fn) (inst : val) : res val :=
   match inst with
   | VI c vs =>
       if recurse then conv_spec retain flt df ser PMember inst
       else
-        option_map (fun items => VD df (map (fun a => (VStr (fst a), snd a)) items))
-          (fields_loop (passes flt) (fun f x => Some (ser_value ser (Some (c, fst f)) x))
-             (fields_of E c) vs)
-  | _ => None
+        match fields_loop (passes flt) (fun f x => ser_value ser (Some (c, fst f)) x)
+                (fields_of E c) vs with
+        | Ok items => Ok (VD df (map (fun a => (VStr (fst a), snd a)) items))
+        | Err e => Err e
+        end
+  | _ => Err ETypeError
   end.
 
 (** What [astuple] should return: the filter-passing field values in field
@@ -498,40 +504,42 @@ Definition asdict_spec (recurse retain : bool) (flt : option filter_fn) (df : dk
     direct members of a collection / keys and values of a dict likewise when they
     are instances, otherwise left alone). *)
 Fixpoint astuple_spec (recurse retain : bool) (flt : option filter_fn) (tf : tfk)
-    (inst : val) {struct inst} : option val :=
+    (inst : val) {struct inst} : res val :=
   match inst with
   | VI c vs =>
-      option_map (fun items => apply_tf tf (map snd items))
-        (fields_loop (passes flt)
+      match
+        fields_loop (passes flt)
            (fun f v =>
-              if negb recurse then Some v else
+              if negb recurse then Ok v else
               match v with
               | VI _ _ => astuple_spec true retain flt tf v
               | VL xs | VT _ xs | VS xs | VF xs =>
-                  match all_some (map (fun j => match j with
-                                                | VI _ _ => astuple_spec true retain flt tf j
-                                                | _ => Some j
-                                                end) xs) with
-                  | Some items => rebuild_spec retain PMember v items
-                  | None => None
+                  match all_ok (map (fun j => match j with
+                                              | VI _ _ => astuple_spec true retain flt tf j
+                                              | _ => Ok j
+                                              end) xs) with
+                  | Ok items => rebuild_spec retain PMember v items
+                  | Err e => Err e
                   end
               | VD k kvs =>
-                  match all_some (map (fun kv =>
+                  match all_ok (map (fun kv =>
                            match kv with
                            | (a, b) =>
-                               match (match a with VI _ _ => astuple_spec true retain None tf a | _ => Some a end),
-                                     (match b with VI _ _ => astuple_spec true retain None tf b | _ => Some b end) with
-                               | Some a', Some b' => Some (a', b')
-                               | _, _ => None
-                               end
+                               pair_spec
+                                 (match a with VI _ _ => astuple_spec true retain None tf a | _ => Ok a end)
+                                 (match b with VI _ _ => astuple_spec true retain None tf b | _ => Ok b end)
                            end) kvs) with
-                  | Some ps => mk_dict E (if retain then k else DkD) ps
-                  | None => None
+                  | Ok ps => Ok (mk_dict (if retain then k else DkD) ps)
+                  | Err e => Err e
                   end
-              | _ => Some v
+              | _ => Ok v
               end)
-           (fields_of E c) vs)
-  | _ => None
+           (fields_of E c) vs
+      with
+      | Ok items => Ok (apply_tf tf (map snd items))
+      | Err e => Err e
+      end
+  | _ => Err ETypeError
   end.
 
 (** ** Construction [C( **kwargs )] for classes without defaults, converters or
@@ -556,16 +564,26 @@ Definition kw_expected (c : nat) (kv : val * val) : bool :=
   | _ => false
   end.
 
-Definition construct (c : nat) (kws : list (val * val)) : option val :=
-  if forallb (kw_expected c) kws then
-    option_map (VI c)
-      (all_some (map (fun f => lookup_kw (lstrip_us (fst f)) kws) (fields_of E c)))
-  else None.
+Definition all_some {A : Type} : list (option A) -> option (list A) :=
+  fix go l := match l with
+              | [] => Some []
+              | Some a :: r => option_map (cons a) (go r)
+              | None :: _ => None
+              end.
 
-Definition roundtrip (c : nat) (vs : list val) : option val :=
+Definition construct (c : nat) (kws : list (val * val)) : res val :=
+  if forallb (kw_expected c) kws then
+    match all_some (map (fun f => lookup_kw (lstrip_us (fst f)) kws) (fields_of E c)) with
+    | Some vs => Ok (VI c vs)
+    | None => Err ETypeError
+    end
+  else Err ETypeError.
+
+Definition roundtrip (c : nat) (vs : list val) : res val :=
   match asdict true false None DkD None (VI c vs) with
-  | Some (VD _ items) => construct c items
-  | _ => None
+  | Ok (VD _ items) => construct c items
+  | Ok _ => Err ETypeError
+  | Err e => Err e
   end.
 
 End Funcs.
